@@ -255,7 +255,7 @@ func c18PlayRounds(t *testing.T, c c18Case, rounds bool, setup func(clk *c18Cloc
 				for i := 0; i < len(ops); i++ {
 					if rounds && i > 0 {
 						roundArr[i].Add(1)
-						for spins := 0; roundArr[i].Load() < roundNeed[i] && spins < 300000; spins++ {
+						for spins := 0; roundArr[i].Load() < roundNeed[i] && spins < 30000; spins++ {
 							if spins > 2000 {
 								runtime.Gosched()
 							}
